@@ -137,9 +137,66 @@ def long_lived_handle(ctx, n):
         ctx.dist("long_lived_handle_sessions")
 
 
+def content_returns(ctx, n):
+    """A file's content goes A, B, A again (new mtime) over three versions -- stored as blocks of its own, so the third version
+    shares blocks with the first by content, not by inheritance -- then the FIRST version is deleted (and garbage collected):
+    the second and third must still restore.  Variants: an interrupted backup or a version made with the file excluded sits
+    in between."""
+    cases = []
+    for t in range(n):
+        def img(tag, m):
+            return {"k": "f", "data": (tag * ctx.rng.choice([2, 5])).hex(), "mode": 0o644, "mtime": 10**18 + m}
+        base = scen.small_tree(ctx.rng)
+        ta, tb, tc = (json.loads(json.dumps(base)) for _ in range(3))
+        ta["c"]["image"] = img(b"content-A-", 1)
+        tb["c"]["image"] = img(b"content-B-", 2)
+        tc["c"]["image"] = dict(ta["c"]["image"], mtime=10**18 + 3)
+        o = {"meph": ctx.rng.choice([2, 100000]), "mbs": ctx.rng.choice([8, 64]), "sfc": ctx.rng.choice([0, 0, 4])}
+        steps = [{"op": "init"}, {"op": "mktree", "path": "src", "tree": ta}, {"op": "backup", "opts": o}]
+        variant = t % 3
+        if variant == 0:
+            steps += [{"op": "mktree", "path": "src", "tree": tb}, {"op": "backup", "opts": o}]
+        elif variant == 1:
+            steps += [{"op": "mktree", "path": "src", "tree": tb}, {"op": "backup", "opts": o, "plan": {"crash": ctx.rng.choice([14, 18, 22])}}]
+        else:
+            steps += [{"op": "backup", "opts": dict(o, excludes=["/image"])}]
+        steps += [{"op": "mktree", "path": "src", "tree": tc}, {"op": "backup", "opts": o}, {"op": "versions"},
+                  {"op": "delete", "bands": [0]}, {"op": "restore", "band": 2, "dest": "out2"},
+                  {"op": "delete", "bands": []}, {"op": "restore", "band": 2, "dest": "out2b"}]
+        cases.append({"id": f"cr{t}", "steps": steps, "tc": tc, "variant": variant})
+    res = ctx.cvh_run(cases)
+    for c in cases:
+        r = res.get(c["id"])
+        ctx.count()
+        small = {"steps": c["steps"]}
+        if r is None or any(isinstance(x, dict) and x.get("panic") for x in r):
+            ctx.oracle_fail("history/panic", "an operation crashed or hung", small)
+            continue
+        n_ = len(c["steps"])
+        bk3, dele = r[n_ - 6], r[n_ - 4]
+        if bk3.get("result") != "ok" or dele.get("result") != "ok":
+            continue        # (a kill that left the second backup without a head makes the delete legitimately different; not this family's point)
+        want = scen.tree_file_bytes(c["tc"])
+        bad = None
+        for what, got in (("after deleting the first version", r[n_ - 3]), ("after a garbage collection too", r[n_ - 1])):
+            if got.get("result") != "ok" or got.get("monitor_errors"):
+                bad = f"{what} the third version does not restore: {json.dumps(got.get('err') or got.get('monitor_errors'))[:200]}"
+                break
+            if scen.tree_file_bytes(got.get("tree") or {}) != want:
+                bad = f"{what} the third version restores other bytes"
+                break
+        if bad:
+            ctx.oracle_fail("history/version-does-not-restore" if "does not restore" in bad else "history/version-differs",
+                            "content A, B, A again, then the first version deleted: " + bad, small)
+            continue
+        ctx.nontrivial("content-returns:" + c["id"])
+        ctx.dist("content_returns_histories")
+
+
 def run(ctx):
     quick = ctx.tier == "quick"
     long_lived_handle(ctx, 6 if quick else 60)
+    content_returns(ctx, 6 if quick else 60)
     cases = build(ctx, 36 if quick else 400, 8 if quick else 18)
     ctx.cov["rule"] = ("random histories over {source changes (content+mtime, same-size content, chmod, add/remove, kind swaps), backup(options), backup "
                        "killed at a random storage operation (incl. the empty-file state) and later resumed, delete(subset), gc, validate}; after "
